@@ -16,6 +16,7 @@ ID = "C02"
 LEVEL = "model_checking"
 TIER = "quick"
 FLOATW = [0.5, 1 / 3, 0.2, 1 / 7, 0.25, 0.3]
+SIGNEDW = [1.0, -1.0, 0.5, 2.0, -0.5, 4.0]  # dyadic: float arithmetic on them is exact
 FRACW = [Fraction(1, 2), Fraction(1, 3), Fraction(1, 5), Fraction(1, 7), Fraction(1, 4), Fraction(3, 10)]
 
 
@@ -213,6 +214,26 @@ def run_num(case):
             ("float:cky", lambda: IncrementalCKY(gf.cnf)),
         ]:
             objs[name] = _call(mk)
+    # signed real weights with exact cancellation (running sums hit 0.0) on grammars with finitely many
+    # derivations: every permutation of the first three rules x every assignment of {1,-1,0.5} to them
+    from vf.props.C08 import finite_derivations
+    import itertools as _it
+
+    sw = None
+    signed_variants = []
+    from vf.props.C08 import no_recursion
+
+    if n and no_recursion(rules, V):
+        sw = [SIGNEDW[i % len(SIGNEDW)] for i in range(n)]
+        gs = gram.build(rules, Float, sw, V=V)
+        for name, mk in [("signed:cfg", lambda: gs), ("signed:earley", lambda: earley.Earley(gs)), ("signed:rescaled", lambda: earley_rescaled.Earley(gs)), ("signed:cky", lambda: IncrementalCKY(gs.cnf))]:
+            objs[name] = _call(mk)
+        k3 = min(3, n)
+        for wperm in set(_it.permutations([1.0, -1.0, 0.5][:k3])):
+            for rperm in _it.permutations(range(k3)):
+                W2 = list(wperm) + [1.0] * (n - k3)
+                order = list(rperm) + list(range(k3, n))
+                signed_variants.append((W2, order))
     for name, f in objs.items():
         if isinstance(f, str):
             fails.append(_fail(f"{name}:construct", dict(inp0, parser=name), f, "parser object"))
@@ -226,6 +247,7 @@ def run_num(case):
                 wf = ref_weight([(w, h, b) for w, (h, b) in zip(fw, rules)], "S", V, Float, x, tol=1e-15, maxit=300)
             except NoConvergence:
                 wf = None
+        ws = ref_weight([(w, h, b) for w, (h, b) in zip(sw, rules)], "S", V, Float, x) if sw is not None else None
         if wb.score:
             nonzero += 1
         for name, f in objs.items():
@@ -239,6 +261,9 @@ def run_num(case):
             elif name.startswith("maxtimes"):
                 ok = isinstance(have, MaxTimes) and have == wm
                 want = wm
+            elif name.startswith("signed"):
+                want = ws
+                ok = isinstance(have, (int, float)) and abs(have - ws) <= 1e-9
             else:
                 if wf is None:
                     continue
@@ -246,6 +271,17 @@ def run_num(case):
                 ok = isinstance(have, (int, float)) and gram.fclose(have, wf)
             if not ok:
                 fails.append(_fail(f"{name}(x)==reference", dict(inp0, parser=name, x=list(x)), have, want))
+    for W2, order in signed_variants:
+        g2 = gram.build(rules, Float, W2, V=V, order=order)
+        w2rules = [(w, h, b) for w, (h, b) in zip(W2, rules)]
+        ps = [("signed:earley", _call(earley.Earley, g2)), ("signed:rescaled", _call(earley_rescaled.Earley, g2)), ("signed:cky", _call(lambda: IncrementalCKY(g2.cnf)))]
+        for x in strings_upto(sorted(V, key=repr), min(p["maxlen"], 3)):
+            want = ref_weight(w2rules, "S", V, Float, x)
+            for name, f in ps:
+                have = f if isinstance(f, str) else _call(f, x)
+                evals += 1
+                if not (isinstance(have, (int, float)) and abs(have - want) <= 1e-9):
+                    fails.append(_fail(f"{name}(x)==reference", dict(inp0, parser=name, x=list(x), weights=W2, order=order), have, want))
     return {"evals": evals, "nontrivial": int(nonzero > 0), "fails": fails, "counters": {"executions": evals, "float_skipped_nonconvergent": int(not float_ok)}}
 
 
